@@ -33,7 +33,7 @@ func TestMain(m *testing.M) {
 		"cases = (corpus file from the *.fqtest commands, mutation, format, force). Mutation family: identity; truncation at every length; byte overwrite at every offset with {00,ff,7f,80,+1,-1}; single-bit flip; length-field saturation (aligned 2/4/8-byte windows set to 0, max, max-1, file length +-1, both endians); duplication/removal of aligned blocks of 1/4/16/512 bytes. Formats: the file's home format, probe, and every registered format in rotation; force on/off. Bulk through decode.Decode + full tree walk; a sample through interp.Main (dv, -V, torepr). The thorough tier enumerates the whole family for files <= 512 bytes on their home format; elsewhere cases are drawn by rapid. Worker processes journal the open case so that a process death (fatal error, stack overflow) is attributed, excluded and searched behind. Non-trivial: the decode produced a tree with >= 3 values (the decoder got past its first field); distinct = hash(file, mutation, format, force).",
 		"a decode still running after 10 s is reported as suspected_hang (non-termination cannot be decided by running), never as a violation",
 		"an out-of-memory death under the shard limit (ulimit -v 6 GiB) is re-run alone under a 48 GiB limit and counts only if the process dies again; otherwise it is resource_inconclusive",
-		"force is not combined with the probe group, with formats that hand nested data to the probe group (force is inherited: combinatorial blow-up by construction) or with bplist/midi (forced decodes observed not to finish in 10 s); counted as force-left-out",
+		"every decode runs under a WORK budget: a context whose Err() counts the calls decode.Decode makes after each format attempt and reports a deadline after 4000 attempts; forcing the probe group or a format that hands nested data to it (force is inherited: ~130 forced decoders at every nesting level) therefore ends deterministically instead of running for minutes (label attempt-budget-exhausted); the tree built so far is still walked",
 		"signatures are 'fault class:fq function of the fault' so one root cause is one finding",
 	)
 	harness.Watchdog(10 * time.Second)
@@ -355,7 +355,39 @@ type outcome struct {
 	sig, msg string
 	values   int
 	failed   bool
+	budget   bool // the format-attempt budget ran out (forced container decodes)
 }
+
+// budgetCtx bounds a decode by WORK instead of time: decode.Decode asks
+// ctx.Err() once after every format attempt, so counting those calls limits the
+// number of (nested, forced) format attempts deterministically.  Forcing a
+// format that hands nested data to the probe group forces ~130 decoders at
+// every nesting level; with the budget such decodes end early (every nested
+// probe loop returns at its next attempt) instead of running for minutes.
+type budgetCtx struct {
+	context.Context
+	left int
+	done chan struct{}
+}
+
+func newBudgetCtx(n int) *budgetCtx {
+	return &budgetCtx{Context: context.Background(), left: n, done: make(chan struct{})}
+}
+
+func (b *budgetCtx) Err() error {
+	if b.left <= 0 {
+		return context.DeadlineExceeded
+	}
+	b.left--
+	if b.left == 0 {
+		close(b.done)
+		return context.DeadlineExceeded
+	}
+	return nil
+}
+func (b *budgetCtx) Done() <-chan struct{} { return b.done }
+
+const attemptBudget = 4000
 
 var corpusByPath map[string][]byte
 
@@ -416,10 +448,12 @@ func runCase(c caseT) (o outcome) {
 		}
 		return o
 	}
-	v, _, err := fqx.Decode(context.Background(), data, c.Format, c.Force)
+	bctx := newBudgetCtx(attemptBudget)
+	v, _, err := fqx.Decode(bctx, data, c.Format, c.Force)
 	if err != nil {
 		o.failed = true
 	}
+	o.budget = bctx.left <= 0
 	if v != nil {
 		fqx.Walk(v, func(v *decode.Value, depth int) { o.values++ })
 	}
@@ -443,20 +477,13 @@ type pool struct {
 	nests   map[string]bool // formats (and groups) that decode nested data with the probe group
 }
 
-// forceOK: forcing the probe group, or a format that hands nested data to the
-// probe group, forces all ~130 decoders at every nesting level (the force
-// option is inherited): a combinatorial blow-up by construction, not a fault.
-// Those combinations are counted and left out; force is exercised on all
-// formats that do not nest the probe group.
-//
-// forcedSlow: forced decodes of these formats were observed not to finish
-// within the 10 s watchdog on some inputs (reported as suspected hangs in
-// earlier runs; non-termination is outside the fault classes of the statement
-// and cannot be decided by running).  They are left out of forced decoding so
-// that the quick tier does not spend its budget waiting; unforced they run.
-var forcedSlow = map[string]bool{"bplist": true, "midi": true}
+// forceOK: since decodes run under the format-attempt budget (budgetCtx) force
+// is combined with every format, the probe group included.  forcedSlow lists
+// formats whose forced decode is known not to terminate inside ONE decoder
+// function (no budget can stop that); empty since the midi loop was repaired.
+var forcedSlow = map[string]bool{}
 
-func (p *pool) forceOK(format string) bool { return !p.nests[format] && !forcedSlow[format] }
+func (p *pool) forceOK(format string) bool { return !forcedSlow[format] }
 
 var thePool *pool
 
@@ -560,6 +587,12 @@ func record(c caseT, o outcome) {
 	if o.failed {
 		labels = append(labels, "decode-error")
 	}
+	if o.budget {
+		labels = append(labels, "attempt-budget-exhausted")
+	}
+	if c.Force && getPool().nests[c.Format] {
+		labels = append(labels, "forced-container")
+	}
 	nt := o.values >= 3
 	harness.Count(harness.HashBytes([]byte(c.desc())), nt, labels...)
 	if nt && c.Mut.Kind != "id" && harness.WantSample("case", 6) {
@@ -652,6 +685,12 @@ func mutantCase(rt *rapid.T, c *harness.Case, viaMain bool) {
 	}
 	if o.failed {
 		c.Label("decode-error")
+	}
+	if o.budget {
+		c.Label("attempt-budget-exhausted")
+	}
+	if cs.Force && p.nests[cs.Format] {
+		c.Label("forced-container")
 	}
 	if cs.Format != e.Format {
 		c.Label("foreign-format")
